@@ -88,6 +88,7 @@ Hypothesis HCall : forall f es kw, Forall P es -> Forall (fun p => P (snd p)) kw
 Hypothesis HTupIdx : forall e n, P e -> P (ETupIdx e n).
 Hypothesis HIndex : forall e i, P e -> P i -> P (EIndex e i).
 Hypothesis HObj : forall o, P (EObj o).
+Hypothesis HPtr : forall e p, P e -> P (EPtr e p).
 
 Fixpoint expr_ind' (e : expr) : P e :=
   let fix go (l : list expr) : Forall P l :=
@@ -112,6 +113,7 @@ Fixpoint expr_ind' (e : expr) : P e :=
   | ETupIdx e1 n => HTupIdx e1 n (expr_ind' e1)
   | EIndex e1 i => HIndex e1 i (expr_ind' e1) (expr_ind' i)
   | EObj o => HObj o
+  | EPtr e1 p => HPtr e1 p (expr_ind' e1)
   end.
 End ExprInd.
 
@@ -466,6 +468,8 @@ Variable prim : bcall -> list (list value) -> list value.
 Variable castv : ty -> ty -> value -> list value.
 Variable idxp : ty -> value -> value -> list value.
 Variable db : N -> list value.
+Variable ptrs : list (N * N * ty).
+Variable dbp : N -> N -> list value.
 
 Definition typed (t : ty) (vs : list value) : Prop := Forall (fun v => has_type sg v t = true) vs.
 
@@ -479,8 +483,12 @@ Hypothesis Hidx : forall t v i, typed t (idxp t v i).
 (* the database instance conforms to the schema: the extent of an object type contains
    objects of that type (or of a descendant) *)
 Hypothesis Hdb : forall o, typed (TObj o) (db o).
+(* ... and every object stores, in each pointer declared for (an ancestor of) its type, values of
+   the declared target type *)
+Hypothesis Hdbp : forall a p t o id, find_ptr ptrs a p = Some t -> ob_sub sg o a = true ->
+  typed t (dbp id p).
 
-Notation run' := (run sg s_int64 prim castv idxp db).
+Notation run' := (run sg s_int64 prim castv idxp db ptrs dbp).
 Notation finalize' := (finalize sg castv).
 Notation apply_bcall' := (apply_bcall sg prim castv).
 Notation compile_operator' := (compile_operator sg prim castv).
@@ -623,13 +631,7 @@ Lemma compile_operator_sound : forall nm argvs t vs,
   Forall av_typed argvs -> compile_operator' nm argvs = Ok (t, true, vs) -> typed t vs.
 Proof.
   intros nm argvs t vs Ha H. unfold compile_operator in H.
-  destruct (existsb is_union (map av_ty argvs)); [discriminate|].
-  destruct (callables_named sg nm true) as [|first rest]; [discriminate|].
-  unfold bind in H at 1. dres H.
-  unfold bind in H at 1. dres H.
-  match type of H with
-  | match ?M with _ => _ end = _ => destruct M as [|c [|c2 m2]]; try discriminate
-  end.
+  unfold bind in H at 1. destruct (resolve_operator sg nm (map av_ty argvs)) as [c|]; [|discriminate].
   unfold bind in H. destruct (apply_bcall' c argvs []) as [[[rtype clean] vs0]|] eqn:Eap; [|discriminate].
   destruct (is_set_like_op sg (cl_name (bc_f c)) && is_object rtype) eqn:Eobj.
   - (* union type of the operands *)
@@ -667,11 +669,7 @@ Lemma compile_call_sound : forall nm argvs kwvs t vs,
   compile_call' nm argvs kwvs = Ok (t, true, vs) -> typed t vs.
 Proof.
   intros nm argvs kwvs t vs Ha Hk H. unfold compile_call in H.
-  destruct (existsb is_union (map av_ty argvs) || existsb (fun kv => is_union (av_ty (snd kv))) kwvs);
-    [discriminate|].
-  destruct (callables_named sg nm false) as [|f fs]; [discriminate|].
-  unfold bind in H. dres H.
-  destruct a as [|c [|c2 m2]]; try discriminate.
+  unfold bind in H. destruct (resolve_call sg nm _ _) as [c|]; [|discriminate].
   eapply apply_bcall_sound; eauto.
 Qed.
 
@@ -998,12 +996,867 @@ Proof.
     eapply index_value_typed; eauto.
   - (* EObj *)
     apply Q_of_sound; try congruence. intros t vs H. simpl in H. inversion H; subst. apply Hdb.
+  - (* EPtr *)
+    apply Q_of_sound; try congruence. destruct IHe as [IHe _].
+    intros t vs H. simpl in H. unfold bind in H.
+    destruct (run' e) as [[[t0 c] vs0]|] eqn:E; [|discriminate].
+    destruct t0; try discriminate.
+    destruct (find_ptr ptrs o p) as [tgt|] eqn:Ep; [|discriminate].
+    inversion H; subst. apply typed_flat_map. intros v Hv.
+    pose proof (IHe _ _ E) as Ht. unfold typed in Ht. rewrite Forall_forall in Ht. specialize (Ht v Hv).
+    destruct v; simpl; try apply typed_nil.
+    simpl in Ht. eapply Hdbp; eauto.
 Qed.
 
 Theorem run_sound : forall e t vs, run' e = Ok (t, true, vs) -> typed t vs.
 Proof. intros e. apply (run_sound_Q e). Qed.
 
 End Sound.
+
+(* ------------------------------------------------------------------ types do not depend on values *)
+Section Indep.
+Variable sg : sig.
+Variable s_int64 : N.
+Variables prim1 prim2 : bcall -> list (list value) -> list value.
+Variables castv1 castv2 : ty -> ty -> value -> list value.
+Variables idxp1 idxp2 : ty -> value -> value -> list value.
+Variables db1 db2 : N -> list value.
+Variable ptrs : list (N * N * ty).
+Variables dbp1 dbp2 : N -> N -> list value.
+
+Notation run1 := (run sg s_int64 prim1 castv1 idxp1 db1 ptrs dbp1).
+Notation run2 := (run sg s_int64 prim2 castv2 idxp2 db2 ptrs dbp2).
+
+Definition same_td (a1 a2 : argv) : Prop := av_d a1 = av_d a2.
+
+Definition rel3 (r1 r2 : res (ty * bool * list value)) : Prop :=
+  match r1, r2 with
+  | Ok (t1, c1, _), Ok (t2, c2, _) => t1 = t2 /\ c1 = c2
+  | Err e1, Err e2 => e1 = e2
+  | _, _ => False
+  end.
+
+Definition relr (d1 d2 : res (argv * bool)) : Prop :=
+  match d1, d2 with
+  | Ok (a1, c1), Ok (a2, c2) => same_td a1 a2 /\ c1 = c2
+  | Err e1, Err e2 => e1 = e2
+  | _, _ => False
+  end.
+
+Definition same_kw (k1 k2 : N * argv) : Prop := fst k1 = fst k2 /\ same_td (snd k1) (snd k2).
+
+Lemma same_td_ty : forall a1 a2, same_td a1 a2 -> av_ty a1 = av_ty a2.
+Proof. unfold same_td, av_ty. intros. congruence. Qed.
+
+Lemma map_av_ty : forall l1 l2, Forall2 same_td l1 l2 -> map av_ty l1 = map av_ty l2.
+Proof. induction 1; simpl; auto. f_equal; auto. apply same_td_ty; auto. Qed.
+
+Lemma lookup_arg_rel : forall args1 args2 kws1 kws2 b,
+  Forall2 same_td args1 args2 -> Forall2 same_kw kws1 kws2 ->
+  same_td (lookup_arg args1 kws1 b) (lookup_arg args2 kws2 b).
+Proof.
+  intros args1 args2 kws1 kws2 b Ha Hk. unfold lookup_arg.
+  destruct (ba_arg b) as [i|].
+  - revert i. induction Ha; intros [|i]; simpl; try reflexivity; auto.
+  - destruct (ba_kw b) as [k|]; [|reflexivity].
+    induction Hk; simpl; [reflexivity|].
+    destruct x as [k1 a1], y as [k2 a2]. destruct H as [H1 H2]. simpl in *. subst.
+    destruct (N.eqb k k2); auto.
+Qed.
+
+Lemma finalize_rel : forall args1 args2 kws1 kws2,
+  Forall2 same_td args1 args2 -> Forall2 same_kw kws1 kws2 ->
+  forall bargs,
+  match finalize sg castv1 args1 kws1 bargs, finalize sg castv2 args2 kws2 bargs with
+  | Ok (c1, _), Ok (c2, _) => c1 = c2
+  | Err e1, Err e2 => e1 = e2
+  | _, _ => False
+  end.
+Proof.
+  intros args1 args2 kws1 kws2 Ha Hk. induction bargs as [|b bargs]; simpl; auto.
+  pose proof (lookup_arg_rel args1 args2 kws1 kws2 b Ha Hk) as Hl.
+  unfold same_td in Hl. unfold bind.
+  destruct (compat sg (barg_target b) (ba_vty b)).
+  - unfold av_ty. rewrite Hl.
+    destruct (finalize sg castv1 args1 kws1 bargs) as [[c1 v1]|];
+      destruct (finalize sg castv2 args2 kws2 bargs) as [[c2 v2]|]; simpl; try contradiction; auto.
+    subst. reflexivity.
+  - rewrite Hl.
+    destruct (cast_ok sg cast_fuel2 false (av_d (lookup_arg args2 kws2 b)) (barg_target b)); simpl; auto.
+    destruct (finalize sg castv1 args1 kws1 bargs) as [[c1 v1]|];
+      destruct (finalize sg castv2 args2 kws2 bargs) as [[c2 v2]|]; simpl; try contradiction; auto.
+Qed.
+
+Lemma apply_bcall_rel : forall bc args1 args2 kws1 kws2,
+  Forall2 same_td args1 args2 -> Forall2 same_kw kws1 kws2 ->
+  rel3 (apply_bcall sg prim1 castv1 bc args1 kws1) (apply_bcall sg prim2 castv2 bc args2 kws2).
+Proof.
+  intros bc args1 args2 kws1 kws2 Ha Hk. unfold apply_bcall, bind.
+  pose proof (finalize_rel args1 args2 kws1 kws2 Ha Hk (bc_args bc)) as H.
+  destruct (finalize sg castv1 args1 kws1 (bc_args bc)) as [[c1 v1]|];
+    destruct (finalize sg castv2 args2 kws2 (bc_args bc)) as [[c2 v2]|]; simpl; try contradiction; auto.
+Qed.
+
+Lemma rel3_refl_err : forall e, rel3 (Err e) (Err e). Proof. simpl. auto. Qed.
+
+Lemma rel3_ok : forall t c v1 v2, rel3 (Ok (t, c, v1)) (Ok (t, c, v2)).
+Proof. intros. simpl. auto. Qed.
+
+Lemma compile_operator_rel : forall nm a1 a2,
+  Forall2 same_td a1 a2 ->
+  rel3 (compile_operator sg prim1 castv1 nm a1) (compile_operator sg prim2 castv2 nm a2).
+Proof.
+  intros nm a1 a2 Ha. unfold compile_operator.
+  rewrite (map_av_ty a1 a2 Ha).
+  destruct (resolve_operator sg nm (map av_ty a2)) as [c|e]; [|apply rel3_refl_err].
+  unfold bind.
+  pose proof (apply_bcall_rel c a1 a2 [] [] Ha (Forall2_nil _)) as Hap.
+  destruct (apply_bcall sg prim1 castv1 c a1 []) as [[[t1 c1] v1]|];
+    destruct (apply_bcall sg prim2 castv2 c a2 []) as [[[t2 c2'] v2]|]; simpl in Hap; try contradiction;
+    [|subst; apply rel3_refl_err].
+  destruct Hap as [-> ->].
+  destruct (is_set_like_op sg (cl_name (bc_f c)) && is_object t2); [|apply rel3_ok].
+  destruct (N.eqb nm (sg_if sg)).
+  - inversion Ha as [|x1 x2 l1 l2 H1 Ha2]; subst; [apply rel3_refl_err|].
+    inversion Ha2 as [|y1 y2 l1' l2' H2 Ha3]; subst; [apply rel3_refl_err|].
+    inversion Ha3 as [|z1 z2 l1'' l2'' H3 Ha4]; subst; [apply rel3_refl_err|].
+    inversion Ha4; subst; [|apply rel3_refl_err].
+    rewrite (same_td_ty _ _ H1), (same_td_ty _ _ H3). apply rel3_ok.
+  - inversion Ha as [|x1 x2 l1 l2 H1 Ha2]; subst; [apply rel3_refl_err|].
+    inversion Ha2 as [|y1 y2 l1' l2' H2 Ha3]; subst; [apply rel3_refl_err|].
+    inversion Ha3; subst; [|apply rel3_refl_err].
+    rewrite (same_td_ty _ _ H1), (same_td_ty _ _ H2). apply rel3_ok.
+Qed.
+
+Lemma map_kw_ty : forall k1 k2, Forall2 same_kw k1 k2 ->
+  map (fun kv : N * argv => (fst kv, av_ty (snd kv))) k1 = map (fun kv => (fst kv, av_ty (snd kv))) k2.
+Proof.
+  induction 1; simpl; auto. destruct H as [H1 H2]. f_equal; auto.
+  rewrite H1, (same_td_ty _ _ H2). reflexivity.
+Qed.
+
+Lemma compile_call_rel : forall nm a1 a2 k1 k2,
+  Forall2 same_td a1 a2 -> Forall2 same_kw k1 k2 ->
+  rel3 (compile_call sg prim1 castv1 nm a1 k1) (compile_call sg prim2 castv2 nm a2 k2).
+Proof.
+  intros nm a1 a2 k1 k2 Ha Hk. unfold compile_call.
+  rewrite (map_av_ty a1 a2 Ha), (map_kw_ty k1 k2 Hk).
+  destruct (resolve_call sg nm _ _) as [c|e]; [|apply rel3_refl_err].
+  simpl. apply apply_bcall_rel; auto.
+Qed.
+
+Lemma Forall2_len : forall {A B} (R : A -> B -> Prop) l1 l2, Forall2 R l1 l2 -> length l1 = length l2.
+Proof. induction 1; simpl; auto. Qed.
+
+Lemma Forall2_firstn : forall {A B} (R : A -> B -> Prop) n l1 l2,
+  Forall2 R l1 l2 -> Forall2 R (firstn n l1) (firstn n l2).
+Proof. induction n; intros l1 l2 H; simpl; [constructor|]. destruct H; constructor; auto. Qed.
+
+Lemma Forall2_skipn : forall {A B} (R : A -> B -> Prop) n l1 l2,
+  Forall2 R l1 l2 -> Forall2 R (skipn n l1) (skipn n l2).
+Proof. induction n; intros l1 l2 H; simpl; auto. destruct H; auto. Qed.
+
+Lemma balance_rel : forall fuel l1 l2, Forall2 relr l1 l2 ->
+  relr (balance sg prim1 castv1 fuel l1) (balance sg prim2 castv2 fuel l2).
+Proof.
+  induction fuel; intros l1 l2 HF.
+  - simpl. reflexivity.
+  - destruct HF as [|d1 d2 l1 l2 Hd HF]; [simpl; reflexivity|].
+    destruct HF as [|e1 e2 l1 l2 He HF]; [exact Hd|].
+    assert (HL : Forall2 relr (d1 :: e1 :: l1) (d2 :: e2 :: l2)) by (repeat constructor; auto).
+    remember (d1 :: e1 :: l1) as L1. remember (d2 :: e2 :: l2) as L2.
+    assert (Hlen : length L1 = length L2) by (eapply Forall2_len; eauto).
+    assert (E1 : balance sg prim1 castv1 (S fuel) L1 =
+                 (lt <- balance sg prim1 castv1 fuel (firstn (Nat.div2 (length L1)) L1) ;;
+                  rt <- balance sg prim1 castv1 fuel (skipn (Nat.div2 (length L1)) L1) ;;
+                  r <- compile_operator sg prim1 castv1 (sg_union sg) [fst lt; fst rt] ;;
+                  let '(t, clean, vs) := r in
+                  Ok (mk_argv (mk_argd t false false) vs, clean && snd lt && snd rt)))
+      by (subst L1; reflexivity).
+    assert (E2 : balance sg prim2 castv2 (S fuel) L2 =
+                 (lt <- balance sg prim2 castv2 fuel (firstn (Nat.div2 (length L2)) L2) ;;
+                  rt <- balance sg prim2 castv2 fuel (skipn (Nat.div2 (length L2)) L2) ;;
+                  r <- compile_operator sg prim2 castv2 (sg_union sg) [fst lt; fst rt] ;;
+                  let '(t, clean, vs) := r in
+                  Ok (mk_argv (mk_argd t false false) vs, clean && snd lt && snd rt)))
+      by (subst L2; reflexivity).
+    rewrite E1, E2. rewrite <- Hlen. clear E1 E2.
+    set (mid := Nat.div2 (length L1)).
+    assert (HF1 : Forall2 relr (firstn mid L1) (firstn mid L2)).
+    { apply Forall2_firstn; auto. }
+    assert (HF2 : Forall2 relr (skipn mid L1) (skipn mid L2)).
+    { apply Forall2_skipn; auto. }
+    pose proof (IHfuel _ _ HF1) as R1. pose proof (IHfuel _ _ HF2) as R2.
+    unfold bind.
+    destruct (balance sg prim1 castv1 fuel (firstn mid L1)) as [[la1 lc1]|];
+      destruct (balance sg prim2 castv2 fuel (firstn mid L2)) as [[la2 lc2]|]; simpl in R1; try contradiction;
+      [|exact R1].
+    destruct R1 as [Rl ->].
+    destruct (balance sg prim1 castv1 fuel (skipn mid L1)) as [[ra1 rc1]|];
+      destruct (balance sg prim2 castv2 fuel (skipn mid L2)) as [[ra2 rc2]|]; simpl in R2; try contradiction;
+      [|exact R2].
+    destruct R2 as [Rr ->]. simpl.
+    pose proof (compile_operator_rel (sg_union sg) [la1; ra1] [la2; ra2]) as Hc.
+    assert (Hargs : Forall2 same_td [la1; ra1] [la2; ra2]) by (repeat constructor; auto).
+    specialize (Hc Hargs).
+    destruct (compile_operator sg prim1 castv1 (sg_union sg) [la1; ra1]) as [[[t1 c1] v1]|];
+      destruct (compile_operator sg prim2 castv2 (sg_union sg) [la2; ra2]) as [[[t2 c2] v2]|];
+      simpl in Hc; try contradiction; [|exact Hc].
+    destruct Hc as [-> ->]. simpl. split; reflexivity.
+Qed.
+
+Notation farg1 := (fun x => r <- run1 x ;; Ok (as_arg x r)).
+Notation farg2 := (fun x => r <- run2 x ;; Ok (as_arg x r)).
+
+Definition rel_e (e : expr) : Prop := rel3 (run1 e) (run2 e).
+
+Lemma farg_rel : forall e, rel_e e -> relr (farg1 e) (farg2 e).
+Proof.
+  intros e H. unfold rel_e in H. unfold bind.
+  destruct (run1 e) as [[[t1 c1] v1]|]; destruct (run2 e) as [[[t2 c2] v2]|]; simpl in *; try contradiction; auto.
+  destruct H as [-> ->]. split; reflexivity.
+Qed.
+
+Lemma mapM_rel : forall {A B1 B2} (f1 : A -> res B1) (f2 : A -> res B2) (R : B1 -> B2 -> Prop) l,
+  Forall (fun x => match f1 x, f2 x with
+                   | Ok y1, Ok y2 => R y1 y2
+                   | Err e1, Err e2 => e1 = e2
+                   | _, _ => False end) l ->
+  match mapM f1 l, mapM f2 l with
+  | Ok r1, Ok r2 => Forall2 R r1 r2
+  | Err e1, Err e2 => e1 = e2
+  | _, _ => False
+  end.
+Proof.
+  induction 1; simpl; [constructor|]. unfold bind.
+  destruct (f1 x); destruct (f2 x); try contradiction; auto.
+  destruct (mapM f1 l); destruct (mapM f2 l); try contradiction; auto.
+Qed.
+
+Definition QI (e : expr) : Prop :=
+  rel_e e /\ Forall2 relr (set_elem farg1 e) (set_elem farg2 e).
+
+Lemma QI_of_rel : forall e, (forall es, e <> ESet es) -> e <> EEmpty -> rel_e e -> QI e.
+Proof.
+  intros e H1 H2 Hr. split; auto. rewrite !set_elem_nonset; auto.
+  constructor; [apply farg_rel; auto|constructor].
+Qed.
+
+Lemma Forall2_app' : forall {A B} (R : A -> B -> Prop) l1 l2 m1 m2,
+  Forall2 R l1 l2 -> Forall2 R m1 m2 -> Forall2 R (l1 ++ m1) (l2 ++ m2).
+Proof. induction 1; simpl; auto. Qed.
+
+Lemma flat_map_set_elem_rel : forall es, Forall QI es ->
+  Forall2 relr (flat_map (set_elem farg1) es) (flat_map (set_elem farg2) es).
+Proof.
+  induction 1; simpl; [constructor|]. apply Forall2_app'; auto. apply H.
+Qed.
+
+Lemma forallb_snd_rel : forall (r1 r2 : list (argv * bool)),
+  Forall2 (fun x y => same_td (fst x) (fst y) /\ snd x = snd y) r1 r2 ->
+  forallb snd r1 = forallb snd r2 /\ Forall2 same_td (map fst r1) (map fst r2).
+Proof.
+  induction 1; simpl; [split; [reflexivity|constructor]|].
+  destruct H as [H1 H2]. destruct IHForall2 as [I1 I2]. rewrite H2, I1. split; auto.
+Qed.
+
+Theorem run_rel_Q : forall e, QI e.
+Proof.
+  induction e using expr_ind'.
+  - (* ELit *) apply QI_of_rel; try congruence. unfold rel_e. simpl.
+    destruct (sc_is_abstract sg s); simpl; auto.
+  - (* EEmpty *) split; [unfold rel_e; simpl; auto|simpl; constructor].
+  - (* ECast *)
+    apply QI_of_rel; try congruence. destruct IHe as [IH _]. unfold rel_e in *. simpl. unfold bind.
+    destruct (run1 e) as [[[t1 c1] v1]|]; destruct (run2 e) as [[[t2 c2] v2]|]; simpl in IH; try contradiction; auto.
+    destruct IH as [-> ->].
+    destruct (cast_ok sg cast_fuel2 true _ t); simpl; auto.
+  - (* ETuple *)
+    apply QI_of_rel; try congruence. unfold rel_e. simpl.
+    destruct (n && has_dup (map fst els)); [simpl; auto|]. unfold bind at 1 3.
+    pose proof (mapM_rel (fun nx => r <- run1 (snd nx) ;; Ok (fst nx, r))
+                         (fun nx => r <- run2 (snd nx) ;; Ok (fst nx, r))
+                         (fun y1 y2 => fst y1 = fst y2 /\ fst (snd y1) = fst (snd y2)) els) as HM.
+    assert (HF : Forall (fun x => match (r <- run1 (snd x) ;; Ok (fst x, r)),
+                                        (r <- run2 (snd x) ;; Ok (fst x, r)) with
+                                  | Ok y1, Ok y2 => fst y1 = fst y2 /\ fst (snd y1) = fst (snd y2)
+                                  | Err e1, Err e2 => e1 = e2
+                                  | _, _ => False end) els).
+    { eapply Forall_impl; [|exact H]. intros [nm x] [Hx _]. unfold rel_e in Hx. simpl in *. unfold bind.
+      destruct (run1 x) as [[[t1 c1] v1]|]; destruct (run2 x) as [[[t2 c2] v2]|]; simpl in *; try contradiction; auto.
+      destruct Hx as [-> ->]. auto. }
+    specialize (HM HF).
+    destruct (mapM _ els) as [rs1|]; destruct (mapM _ els) as [rs2|]; try contradiction; [|simpl; auto].
+    simpl.
+    assert (E : map (fun r : N * (ty * bool * list value) => (fst r, fst (fst (snd r)))) rs1 =
+                map (fun r => (fst r, fst (fst (snd r)))) rs2 /\ forallb (fun r : N * (ty * bool * list value) => snd (fst (snd r))) rs1 =
+                forallb (fun r => snd (fst (snd r))) rs2).
+    { clear -HM. induction HM; simpl; auto. destruct H as [H1 H2]. destruct IHHM as [I1 I2].
+      destruct x as [n1 [[t1 c1] v1]], y as [n2 [[t2 c2] v2]]. simpl in *.
+      inversion H2; subst. rewrite I1, I2. auto. }
+    destruct E as [E1 E2]. rewrite E1, E2. auto.
+  - (* EArray *)
+    apply QI_of_rel; try congruence. unfold rel_e. simpl. unfold bind at 1 3.
+    pose proof (mapM_rel run1 run2 (fun y1 y2 => fst y1 = fst y2) es) as HM.
+    assert (HF : Forall (fun x => match run1 x, run2 x with
+                                  | Ok y1, Ok y2 => fst y1 = fst y2
+                                  | Err e1, Err e2 => e1 = e2
+                                  | _, _ => False end) es).
+    { eapply Forall_impl; [|exact H]. intros x [Hx _]. unfold rel_e in Hx.
+      destruct (run1 x) as [[[t1 c1] v1]|]; destruct (run2 x) as [[[t2 c2] v2]|]; simpl in *; try contradiction; auto.
+      destruct Hx as [-> ->]. auto. }
+    specialize (HM HF).
+    destruct (mapM run1 es) as [rs1|]; destruct (mapM run2 es) as [rs2|]; try contradiction; [|simpl; auto].
+    assert (E : map (fun r : ty * bool * list value => fst (fst r)) rs1 = map (fun r => fst (fst r)) rs2 /\ forallb (fun r : ty * bool * list value => snd (fst r)) rs1 = forallb (fun r => snd (fst r)) rs2).
+    { clear -HM. induction HM; simpl; auto. destruct IHHM as [I1 I2].
+      destruct x as [[t1 c1] v1], y as [[t2 c2] v2]. simpl in *. inversion H; subst. rewrite I1, I2. auto. }
+    destruct E as [E1 E2]. rewrite E1, E2.
+    destruct (existsb is_array (map (fun r => fst (fst r)) rs2)); [simpl; auto|].
+    destruct (map (fun r => fst (fst r)) rs2) eqn:Em; [simpl; auto|].
+    unfold bind. destruct (infer_common_type sg (t :: l)); simpl; auto.
+  - (* ESet *)
+    assert (HF : Forall2 relr (flat_map (set_elem farg1) es) (flat_map (set_elem farg2) es))
+      by (apply flat_map_set_elem_rel; auto).
+    split.
+    + unfold rel_e. simpl.
+      destruct HF as [|d1 d2 l1 l2 Hd HF]; [simpl; auto|].
+      destruct HF as [|e1 e2 l1 l2 He HF].
+      * unfold bind. destruct d1 as [[a1 c1]|]; destruct d2 as [[a2 c2]|]; simpl in Hd; try contradiction; auto.
+        destruct Hd as [Hd ->]. simpl. split; auto. apply same_td_ty; auto.
+      * assert (HL : Forall2 relr (d1 :: e1 :: l1) (d2 :: e2 :: l2)) by (repeat constructor; auto).
+        assert (Hlen : length (d1 :: e1 :: l1) = length (d2 :: e2 :: l2)) by (eapply Forall2_len; eauto).
+        rewrite Hlen.
+        pose proof (balance_rel (S (length (d2 :: e2 :: l2))) _ _ HL) as Hb.
+        unfold bind.
+        destruct (balance sg prim1 castv1 _ (d1 :: e1 :: l1)) as [[a1 c1]|];
+          destruct (balance sg prim2 castv2 _ (d2 :: e2 :: l2)) as [[a2 c2]|]; simpl in Hb; try contradiction; auto.
+        destruct Hb as [Hb ->]. simpl. split; auto. apply same_td_ty; auto.
+    + simpl. clear -H. induction H; simpl; [constructor|]. apply Forall2_app'; auto. apply H.
+  - (* EOp *)
+    apply QI_of_rel; try congruence. unfold rel_e. simpl. unfold bind at 1 3.
+    pose proof (mapM_rel farg1 farg2 (fun x y => same_td (fst x) (fst y) /\ snd x = snd y) es) as HM.
+    assert (HF : Forall (fun x => match farg1 x, farg2 x with
+                                  | Ok y1, Ok y2 => same_td (fst y1) (fst y2) /\ snd y1 = snd y2
+                                  | Err e1, Err e2 => e1 = e2
+                                  | _, _ => False end) es).
+    { eapply Forall_impl; [|exact H]. intros x [Hx _]. pose proof (farg_rel x Hx) as Hr. unfold relr in Hr.
+      destruct (farg1 x) as [[a1 c1]|]; destruct (farg2 x) as [[a2 c2]|]; simpl in *; auto. }
+    specialize (HM HF).
+    destruct (mapM farg1 es) as [rs1|]; destruct (mapM farg2 es) as [rs2|]; try contradiction; [|simpl; auto].
+    destruct (forallb_snd_rel _ _ HM) as [Es Ea]. rewrite Es.
+    pose proof (compile_operator_rel o _ _ Ea) as Hc. unfold bind.
+    destruct (compile_operator sg prim1 castv1 o (map fst rs1)) as [[[t1 c1] v1]|];
+      destruct (compile_operator sg prim2 castv2 o (map fst rs2)) as [[[t2 c2] v2]|]; simpl in Hc; try contradiction; auto.
+    destruct Hc as [-> ->]. simpl. auto.
+  - (* ECall *)
+    apply QI_of_rel; try congruence. unfold rel_e. simpl. unfold bind at 1 4.
+    pose proof (mapM_rel farg1 farg2 (fun x y => same_td (fst x) (fst y) /\ snd x = snd y) es) as HM.
+    assert (HF : Forall (fun x => match farg1 x, farg2 x with
+                                  | Ok y1, Ok y2 => same_td (fst y1) (fst y2) /\ snd y1 = snd y2
+                                  | Err e1, Err e2 => e1 = e2
+                                  | _, _ => False end) es).
+    { eapply Forall_impl; [|exact H]. intros x [Hx _]. pose proof (farg_rel x Hx) as Hr. unfold relr in Hr.
+      destruct (farg1 x) as [[a1 c1]|]; destruct (farg2 x) as [[a2 c2]|]; simpl in *; auto. }
+    specialize (HM HF).
+    destruct (mapM farg1 es) as [rs1|]; destruct (mapM farg2 es) as [rs2|]; try contradiction; [|simpl; auto].
+    destruct (forallb_snd_rel _ _ HM) as [Es Ea].
+    unfold bind at 1 3.
+    pose proof (mapM_rel (fun nx => r <- run1 (snd nx) ;; Ok (fst nx, as_arg (snd nx) r))
+                         (fun nx => r <- run2 (snd nx) ;; Ok (fst nx, as_arg (snd nx) r))
+                         (fun y1 y2 => fst y1 = fst y2 /\ same_td (fst (snd y1)) (fst (snd y2))
+                                       /\ snd (snd y1) = snd (snd y2)) kw) as HK.
+    assert (HFK : Forall (fun x => match (r <- run1 (snd x) ;; Ok (fst x, as_arg (snd x) r)),
+                                         (r <- run2 (snd x) ;; Ok (fst x, as_arg (snd x) r)) with
+                                   | Ok y1, Ok y2 => fst y1 = fst y2 /\ same_td (fst (snd y1)) (fst (snd y2))
+                                                     /\ snd (snd y1) = snd (snd y2)
+                                   | Err e1, Err e2 => e1 = e2
+                                   | _, _ => False end) kw).
+    { eapply Forall_impl; [|exact H0]. intros [nm x] [Hx _]. unfold rel_e in Hx. simpl in *. unfold bind.
+      destruct (run1 x) as [[[t1 c1] v1]|]; destruct (run2 x) as [[[t2 c2] v2]|]; simpl in *; try contradiction; auto.
+      destruct Hx as [-> ->]. repeat split; reflexivity. }
+    specialize (HK HFK).
+    destruct (mapM _ kw) as [ks1|]; destruct (mapM _ kw) as [ks2|]; try contradiction; [|simpl; auto].
+    assert (EK : Forall2 same_kw (map (fun k : N * (argv * bool) => (fst k, fst (snd k))) ks1)
+                                 (map (fun k => (fst k, fst (snd k))) ks2) /\ forallb (fun k : N * (argv * bool) => snd (snd k)) ks1 = forallb (fun k => snd (snd k)) ks2).
+    { clear -HK. induction HK; simpl; [split; [constructor|reflexivity]|].
+      destruct H as [H1 [H2 H3]]. destruct IHHK as [I1 I2]. rewrite H3, I2. split; auto.
+      constructor; auto. split; auto. }
+    destruct EK as [EK1 EK2]. rewrite Es, EK2.
+    pose proof (compile_call_rel f _ _ _ _ Ea EK1) as Hc. unfold bind.
+    destruct (compile_call sg prim1 castv1 f _ _) as [[[t1 c1] v1]|];
+      destruct (compile_call sg prim2 castv2 f _ _) as [[[t2 c2] v2]|]; simpl in Hc; try contradiction; auto.
+    destruct Hc as [-> ->]. simpl. auto.
+  - (* ETupIdx *)
+    apply QI_of_rel; try congruence. destruct IHe as [IH _]. unfold rel_e in *. simpl. unfold bind.
+    destruct (run1 e) as [[[t1 c1] v1]|]; destruct (run2 e) as [[[t2 c2] v2]|]; simpl in IH; try contradiction; auto.
+    destruct IH as [-> ->].
+    destruct t2; simpl; auto.
+    destruct (n <? 32)%N.
+    + destruct (nth_error els (N.to_nat n)) as [[i x]|]; simpl; auto.
+    + destruct named; simpl; auto. destruct (assoc n els); simpl; auto.
+  - (* EIndex *)
+    apply QI_of_rel; try congruence. destruct IHe1 as [IH1 _]. destruct IHe2 as [IH2 _].
+    unfold rel_e in *. simpl. unfold bind.
+    destruct (run1 e1) as [[[t1 c1] v1]|]; destruct (run2 e1) as [[[t2 c2] v2]|]; simpl in IH1; try contradiction; auto.
+    destruct IH1 as [-> ->].
+    destruct (run1 e2) as [[[u1 d1] w1]|]; destruct (run2 e2) as [[[u2 d2] w2]|]; simpl in IH2; try contradiction; auto.
+    destruct IH2 as [-> ->].
+    destruct (infer_index sg s_int64 t2 u2); simpl; auto.
+  - (* EObj *)
+    apply QI_of_rel; try congruence. unfold rel_e. simpl. auto.
+  - (* EPtr *)
+    apply QI_of_rel; try congruence. destruct IHe as [IH _]. unfold rel_e in *. simpl. unfold bind.
+    destruct (run1 e) as [[[t1 c1] v1]|]; destruct (run2 e) as [[[t2 c2] v2]|]; simpl in IH; try contradiction; auto.
+    destruct IH as [-> ->].
+    destruct t2; simpl; auto.
+    destruct (find_ptr ptrs o p); simpl; auto.
+Qed.
+
+Theorem run_rel : forall e, rel3 (run1 e) (run2 e).
+Proof. intros e. apply (run_rel_Q e). Qed.
+
+End Indep.
+
+(* ------------------------------------------------------------------ resolution vs candidate order *)
+Section MinBy.
+Variable key : bcall -> Z.
+
+Definition lmin (b : Z) (l : list bcall) : Z := fold_left (fun m c => Z.min m (key c)) l b.
+
+Lemma lmin_le : forall l b, (lmin b l <= b)%Z.
+Proof.
+  induction l; simpl; intros; [lia|]. specialize (IHl (Z.min b (key a))). unfold lmin in *. lia.
+Qed.
+
+Lemma lmin_lower : forall l b c, In c l -> (lmin b l <= key c)%Z.
+Proof.
+  induction l; simpl; intros b c H; [contradiction|]. destruct H as [->|H].
+  - pose proof (lmin_le l (Z.min b (key c))). unfold lmin in *. lia.
+  - apply IHl; auto.
+Qed.
+
+Lemma lmin_attained : forall l b, lmin b l = b \/ exists c, In c l /\ key c = lmin b l.
+Proof.
+  induction l; simpl; intros b; [left; reflexivity|].
+  destruct (IHl (Z.min b (key a))) as [H|[c [Hc Hk]]].
+  - unfold lmin in *. simpl. destruct (Z.min_spec b (key a)) as [[_ E]|[_ E]].
+    + left. rewrite H. exact E.
+    + right. exists a. split; auto. rewrite H. symmetry. exact E.
+  - right. exists c. split; auto.
+Qed.
+
+Lemma min_by_some : forall l b acc,
+  min_by key l (Some b) acc =
+  (if (lmin b l =? b)%Z then acc else []) ++ filter (fun c => (key c =? lmin b l)%Z) l.
+Proof.
+  induction l as [|c l IH]; intros b acc; simpl.
+  - unfold lmin. simpl. rewrite Z.eqb_refl. rewrite app_nil_r. reflexivity.
+  - change (fold_left (fun m c0 => Z.min m (key c0)) l (Z.min b (key c))) with (lmin (Z.min b (key c)) l).
+    destruct (b =? key c)%Z eqn:E1.
+    + apply Z.eqb_eq in E1. rewrite IH. rewrite <- E1. rewrite Z.min_id.
+      destruct (lmin b l =? b)%Z eqn:E2.
+      * apply Z.eqb_eq in E2. rewrite E2. rewrite Z.eqb_refl. rewrite <- app_assoc. reflexivity.
+      * rewrite Z.eqb_sym. rewrite E2. reflexivity.
+    + destruct (key c <? b)%Z eqn:E2.
+      * apply Z.ltb_lt in E2. rewrite IH. rewrite Z.min_r by lia.
+        pose proof (lmin_le l (key c)) as Hle.
+        replace (lmin (key c) l =? b)%Z with false by (symmetry; apply Z.eqb_neq; lia).
+        simpl. rewrite (Z.eqb_sym (key c)). destruct (lmin (key c) l =? key c)%Z; reflexivity.
+      * apply Z.ltb_ge in E2. apply Z.eqb_neq in E1. rewrite IH. rewrite Z.min_l by lia.
+        pose proof (lmin_le l b) as Hle.
+        replace (key c =? lmin b l)%Z with false by (symmetry; apply Z.eqb_neq; lia).
+        reflexivity.
+Qed.
+
+Definition gmin (l : list bcall) : Z := match l with [] => 0%Z | c :: l' => lmin (key c) l' end.
+
+Lemma min_by_none : forall l, min_by key l None [] = filter (fun c => (key c =? gmin l)%Z) l.
+Proof.
+  destruct l as [|c l]; simpl; [reflexivity|]. rewrite min_by_some.
+  rewrite (Z.eqb_sym (key c)). destruct (lmin (key c) l =? key c)%Z; reflexivity.
+Qed.
+
+Lemma gmin_lower : forall l c, In c l -> (gmin l <= key c)%Z.
+Proof.
+  destruct l as [|a l]; simpl; intros c H; [contradiction|]. destruct H as [->|H].
+  - apply lmin_le.
+  - apply lmin_lower; auto.
+Qed.
+
+Lemma gmin_attained : forall l, l <> [] -> exists c, In c l /\ key c = gmin l.
+Proof.
+  destruct l as [|a l]; intros H; [congruence|]. simpl.
+  destruct (lmin_attained l (key a)) as [E|[c [Hc Hk]]].
+  - exists a. split; auto.
+  - exists c. split; auto.
+Qed.
+
+Lemma gmin_perm : forall l1 l2, Permutation l1 l2 -> gmin l1 = gmin l2.
+Proof.
+  intros l1 l2 P. destruct l1 as [|a l1].
+  - apply Permutation_nil in P. subst. reflexivity.
+  - assert (N2 : l2 <> []) by (intro; subst; apply Permutation_sym in P; apply Permutation_nil in P; discriminate).
+    destruct (gmin_attained (a :: l1)) as [c1 [H1 K1]]; [congruence|].
+    destruct (gmin_attained l2 N2) as [c2 [H2 K2]].
+    pose proof (gmin_lower l2 c1 (Permutation_in _ P H1)).
+    pose proof (gmin_lower (a :: l1) c2 (Permutation_in _ (Permutation_sym P) H2)). lia.
+Qed.
+
+Lemma filter_perm : forall {A} (p : A -> bool) l1 l2, Permutation l1 l2 -> Permutation (filter p l1) (filter p l2).
+Proof.
+  induction 1; simpl; auto.
+  - destruct (p x); auto.
+  - destruct (p x); destruct (p y); auto. apply perm_swap.
+  - eapply Permutation_trans; eauto.
+Qed.
+
+Lemma min_by_perm : forall l1 l2, Permutation l1 l2 ->
+  Permutation (min_by key l1 None []) (min_by key l2 None []).
+Proof.
+  intros l1 l2 P. rewrite !min_by_none. rewrite (gmin_perm _ _ P). apply filter_perm. exact P.
+Qed.
+End MinBy.
+
+Arguments min_by : simpl never.
+
+Section ResolvePerm.
+Variable sg : sig.
+
+Lemma bind_all_perm : forall args kw c1 c2, Permutation c1 c2 ->
+  forall l1, bind_all sg false args kw c1 = Ok l1 ->
+  exists l2, bind_all sg false args kw c2 = Ok l2 /\ Permutation l1 l2.
+Proof.
+  intros args kw c1 c2 P. induction P; intros l1 H.
+  - exists l1. split; auto.
+  - simpl in *. destruct (try_bind sg false args kw x).
+    + apply IHP; auto.
+    + discriminate.
+    + unfold bind in *. destruct (bind_all sg false args kw l) as [r|] eqn:E; [|discriminate].
+      inversion H; subst. destruct (IHP r eq_refl) as [r2 [E2 P2]]. rewrite E2.
+      exists (b :: r2). split; auto.
+  - simpl in *. unfold bind in *.
+    destruct (try_bind sg false args kw y); destruct (try_bind sg false args kw x); try discriminate;
+      destruct (bind_all sg false args kw l) as [r|]; try discriminate; inversion H; subst;
+      eexists; split; try reflexivity; auto. apply perm_swap.
+  - destruct (IHP1 l1 H) as [m [Em Pm]]. destruct (IHP2 m Em) as [n [En Pn]].
+    exists n. split; auto. eapply Permutation_trans; eauto.
+Qed.
+
+(* overload resolution does not depend on the order in which the schema yields the candidates
+   (schema.get_operators / get_functions iterate over sets) *)
+Theorem find_callable_perm : forall args kw c1 c2 m1,
+  Permutation c1 c2 -> find_callable sg c1 args kw = Ok m1 ->
+  exists m2, find_callable sg c2 args kw = Ok m2 /\ Permutation m1 m2.
+Proof.
+  intros args kw c1 c2 m1 P H. unfold find_callable, bind in *.
+  destruct (bind_all sg false args kw c1) as [l1|] eqn:E1; [|discriminate].
+  destruct (bind_all_perm args kw c1 c2 P l1 E1) as [l2 [E2 P2]]. rewrite E2.
+  set (k1 := fun c : bcall => sumZ (map ba_cd (bc_args c))) in *.
+  pose proof (min_by_perm k1 l1 l2 P2) as PM.
+  set (M1 := min_by k1 l1 None []) in *. set (M2 := min_by k1 l2 None []) in *.
+  pose proof (Permutation_length PM) as Hlen.
+  destruct M1 as [|a [|b r]].
+  - apply Permutation_nil in PM. rewrite PM. inversion H; subst. exists []. split; auto.
+  - destruct M2 as [|a2 [|b2 r2]]; simpl in Hlen; try discriminate.
+    inversion H; subst. exists [a2]. split; auto.
+  - destruct M2 as [|a2 [|b2 r2]]; simpl in Hlen; try discriminate.
+    injection H as Hm. rewrite <- Hm. eexists. split; [reflexivity|]. apply min_by_perm. exact PM.
+Qed.
+End ResolvePerm.
+
+Lemma stmt_type_sound :
+  forall (sg : sig), sig_wf sg = true ->
+  forall (s_int64 : N)
+         (prim : bcall -> list (list value) -> list value)
+         (castv : ty -> ty -> value -> list value)
+         (idxp : ty -> value -> value -> list value)
+         (db : N -> list value) (ptrs : list (N * N * ty)) (dbp : N -> N -> list value),
+  (forall bc vals,
+      Forall2 (fun vs b => typed sg (barg_target b) vs) vals (bc_args bc) ->
+      typed sg (bc_ret bc) (prim bc vals)) ->
+  (forall a b v, typed sg b (castv a b v)) ->
+  (forall t v i, typed sg t (idxp t v i)) ->
+  (forall o, typed sg (TObj o) (db o)) ->
+  (forall a p t o id, find_ptr ptrs a p = Some t -> ob_sub sg o a = true -> typed sg t (dbp id p)) ->
+  forall e t,
+    stmt_type_clean sg s_int64 ptrs e = Ok (t, true) ->
+    exists vs, run sg s_int64 prim castv idxp db ptrs dbp e = Ok (t, true, vs) /\
+               Forall (fun v => has_type sg v t = true) vs.
+Proof.
+  intros sg WF i prim castv idxp db ptrs dbp Hp Hc Hi Hd Hdp e t H.
+  unfold stmt_type_clean, type_of_clean, bind in H.
+  pose proof (run_rel sg i (fun _ _ => []) prim (fun _ _ _ => []) castv (fun _ _ _ => []) idxp
+                      (fun _ => []) db ptrs (fun _ _ => []) dbp e) as R.
+  destruct (run sg i (fun _ _ => []) (fun _ _ _ => []) (fun _ _ _ => []) (fun _ => []) ptrs (fun _ _ => []) e)
+    as [[[t0 c0] v0]|] eqn:E0; [|discriminate].
+  simpl in H. destruct (has_generic t0); [discriminate|]. inversion H; subst.
+  unfold rel3 in R.
+  destruct (run sg i prim castv idxp db ptrs dbp e) as [[[t1 c1] v1]|] eqn:E1; [|contradiction].
+  destruct R as [<- <-]. exists v1. split; auto.
+  eapply run_sound; eauto.
+Qed.
+
+(* ------------------------------------------------------------------ common type: upper bound *)
+Section CommonUB.
+Variable sg : sig.
+Variable ids : list N.          (* the scalar types that may occur *)
+
+(* facts about the scalar level (checked by computation for the generated table) *)
+Hypothesis Hconcrete : forall s, In s ids -> sc_is_abstract sg s = false.
+Hypothesis Hsc : forall s q c, In s ids -> In q ids -> find_common sg (TS s) (TS q) = Some c ->
+  impl_castable sg (TS s) c = true /\ impl_castable sg (TS q) c = true.
+Hypothesis Hsc_sub : forall s q c, In s ids -> In q ids -> find_common sg (TS s) (TS q) = Some c ->
+  issub sg (TS s) (TS q) = true -> issub sg (TS s) c = true.
+
+(* types over those scalars (object types, pseudo types and all collections allowed; range
+   subtypes are scalars; union types are never operands of a common-type computation) *)
+Fixpoint ty_over (t : ty) : Prop :=
+  match t with
+  | TS s => In s ids
+  | TAny | TAnyTuple | TAnyObject | TObj _ => True
+  | TUnion _ => False
+  | TArr e => ty_over e
+  | TRng e | TMRng e => match e with TS s => In s ids | _ => False end
+  | TTup _ els => (fix go (l : list (N * ty)) : Prop :=
+                     match l with [] => True | (_, x) :: l' => ty_over x /\ go l' end) els
+  end.
+
+Lemma list_eqb_refl : forall l, list_eqb N.eqb l l = true.
+Proof. induction l; simpl; auto. rewrite N.eqb_refl. auto. Qed.
+
+Lemma ty_eqb_refl : forall t, ty_eqb t t = true.
+Proof.
+  induction t using ty_ind'; simpl; auto; try apply N.eqb_refl.
+  - rewrite Bool.eqb_reflx. simpl. induction H; auto. destruct x as [i x]. simpl in *.
+    rewrite N.eqb_refl, H. simpl. auto.
+  - apply list_eqb_refl.
+Qed.
+
+Lemma topmost_concrete_some : forall s, sc_is_abstract sg s = false -> exists l, topmost_concrete sg s = Some l.
+Proof.
+  intros s H. unfold topmost_concrete.
+  destruct (filter _ (rev (sc_ancestors sg s))); eauto. rewrite H. eauto.
+Qed.
+
+Lemma sc_cast_dist_refl : forall t, sc_cast_dist sg t t = 0%Z.
+Proof. intros. unfold sc_cast_dist, cast_fuel. simpl. rewrite ty_eqb_refl. reflexivity. Qed.
+
+Lemma impl_refl_scalar : forall s, In s ids -> impl_castable sg (TS s) (TS s) = true.
+Proof.
+  intros s Ho. simpl. rewrite (Hconcrete s Ho). simpl.
+  destruct (topmost_concrete_some s (Hconcrete s Ho)) as [l ->]. rewrite sc_cast_dist_refl. reflexivity.
+Qed.
+
+Lemma impl_refl : forall t, ty_over t -> impl_castable sg t t = true.
+Proof.
+  induction t using ty_ind'; simpl; intros Ho.
+  - apply (impl_refl_scalar s Ho).
+  - reflexivity.
+  - reflexivity.
+  - reflexivity.
+  - auto.
+  - (* TTup *)
+    rewrite Nat.eqb_refl. rewrite list_eqb_refl. simpl. rewrite andb_false_r. simpl.
+    induction H; auto. destruct x as [i x]. simpl in *. destruct Ho as [Hx Ho].
+    rewrite (H Hx). simpl. auto.
+  - destruct t; try contradiction. apply (impl_refl_scalar s Ho).
+  - destruct t; try contradiction. apply (impl_refl_scalar s Ho).
+  - unfold ob_sub. rewrite N.eqb_refl. reflexivity.
+  - contradiction.
+Qed.
+
+Lemma nearest_common_sub : forall anc a b x, In x (nearest_common anc a b) ->
+  (x = a \/ In x (anc a)) /\ (x = b \/ In x (anc b)).
+Proof.
+  intros anc a b x. unfold nearest_common.
+  set (common := filter (fun y => memN y (b :: anc b)) (a :: anc a)).
+  assert (G : forall l acc, (forall y, In y acc -> In y common) -> (forall y, In y l -> In y common) ->
+              forall y, In y (fold_left (fun nearests x0 =>
+                 if existsb (fun y0 => N.eqb y0 x0 || memN x0 (anc y0)) nearests then nearests
+                 else nearests ++ [x0]) l acc) -> In y common).
+  { induction l; simpl; intros acc Ha Hl y Hy; auto.
+    apply (IHl _) in Hy; auto.
+    intros z Hz. destruct (existsb _ acc); auto. apply in_app_or in Hz as [Hz|[->|[]]]; auto. }
+  intros H. apply (G common []) in H; auto; [|intros y []].
+  unfold common in H. apply filter_In in H as [H1 H2]. apply memN_In in H2.
+  simpl in H1, H2. split; [destruct H1; auto|destruct H2; auto].
+Qed.
+
+Definition fc_zip :=
+  fix go (l : list (N * ty)) (r : list (N * ty)) {struct l} : option (list ty) :=
+    match l, r with
+    | (_, x) :: l', (_, y) :: r' =>
+        match find_common sg x y with
+        | Some c => match go l' r' with Some cs => Some (c :: cs) | None => None end
+        | None => None
+        end
+    | _, _ => Some []
+    end.
+
+Definition impl_zip :=
+  fix go (l : list (N * ty)) (r : list (N * ty)) {struct l} : bool :=
+    match l, r with
+    | (_, x) :: l', (_, y) :: r' => impl_castable sg x y && go l' r'
+    | _, _ => true
+    end.
+
+Lemma find_common_tup_unfold : forall n xs m ys,
+  find_common sg (TTup n xs) (TTup m ys) =
+  if ty_eqb (TTup n xs) (TTup m ys) then Some (TTup n xs)
+  else if negb (Nat.eqb (length xs) (length ys)) then None
+  else match fc_zip xs ys with
+       | None => None
+       | Some cs =>
+           if n && m && list_eqb N.eqb (map fst xs) (map fst ys)
+           then Some (TTup true (combine (map fst xs) cs))
+           else Some (TTup false (combine (map N.of_nat (seq 0 (length cs))) cs))
+       end.
+Proof. reflexivity. Qed.
+
+Lemma impl_tup_unfold : forall n xs m ys,
+  impl_castable sg (TTup n xs) (TTup m ys) =
+  Nat.eqb (length xs) (length ys)
+  && negb (n && m && negb (list_eqb N.eqb (map fst xs) (map fst ys)))
+  && impl_zip xs ys.
+Proof. reflexivity. Qed.
+
+Lemma impl_tup_intro : forall n xs m zs,
+  length xs = length zs ->
+  (n && m && negb (list_eqb N.eqb (map fst xs) (map fst zs))) = false ->
+  impl_zip xs zs = true -> impl_castable sg (TTup n xs) (TTup m zs) = true.
+Proof. intros n xs m zs H H0 H1. rewrite impl_tup_unfold, H, Nat.eqb_refl, H0, H1. reflexivity. Qed.
+
+Lemma fc_zip_cons : forall i x xs j y ys,
+  fc_zip ((i, x) :: xs) ((j, y) :: ys) =
+  match find_common sg x y with
+  | Some c => match fc_zip xs ys with Some cs => Some (c :: cs) | None => None end
+  | None => None
+  end.
+Proof. reflexivity. Qed.
+
+Lemma impl_zip_cons : forall i x xs j y ys,
+  impl_zip ((i, x) :: xs) ((j, y) :: ys) = impl_castable sg x y && impl_zip xs ys.
+Proof. reflexivity. Qed.
+
+Lemma fc_zip_spec : forall xs,
+  Forall (fun p => forall b c, ty_over (snd p) -> ty_over b -> find_common sg (snd p) b = Some c ->
+                   impl_castable sg (snd p) c = true /\ impl_castable sg b c = true) xs ->
+  ty_over (TTup false xs) ->
+  forall ys cs, ty_over (TTup false ys) -> length xs = length ys -> fc_zip xs ys = Some cs ->
+  length cs = length xs /\
+  forall names, length names = length cs ->
+    impl_zip xs (combine names cs) = true /\ impl_zip ys (combine names cs) = true.
+Proof.
+  induction 1 as [|[i x] xs Hx HF IH]; intros Ho ys cs Hoy Hlen Hz.
+  - destruct ys; [|discriminate]. simpl in Hz. inversion Hz; subst. split; [reflexivity|].
+    intros names _. destruct names; simpl; auto.
+  - destruct ys as [|[j y] ys]; [discriminate|]. rewrite fc_zip_cons in Hz.
+    destruct (find_common sg x y) as [c|] eqn:Exy; [|discriminate].
+    destruct (fc_zip xs ys) as [cs'|] eqn:Ez; [|discriminate]. inversion Hz; subst.
+    simpl in Ho, Hoy. destruct Ho as [Hox Ho]. destruct Hoy as [Hoy1 Hoy].
+    simpl in Hlen. injection Hlen as Hlen.
+    destruct (IH Ho ys cs' Hoy Hlen Ez) as [L I]. split; [simpl; congruence|].
+    intros names Hn. destruct names as [|nm names]; [discriminate|]. simpl in Hn. injection Hn as Hn.
+    simpl in Hx. destruct (Hx y c Hox Hoy1 Exy) as [A B]. destruct (I names Hn) as [C D].
+    simpl combine. rewrite !impl_zip_cons. rewrite A, B, C, D. auto.
+Qed.
+
+Lemma map_fst_combine : forall {A B} (l : list A) (m : list B), length l = length m -> map fst (combine l m) = l.
+Proof. induction l; destruct m; simpl; intros; try discriminate; auto. f_equal. auto. Qed.
+
+Lemma fc_rng_rng : forall x y, find_common sg (TRng x) (TRng y) =
+  if ty_eqb (TRng x) (TRng y) then Some (TRng x)
+  else match find_common sg x y with Some c => Some (TRng c) | None => None end.
+Proof. reflexivity. Qed.
+Lemma fc_rng_mrng : forall x y, find_common sg (TRng x) (TMRng y) =
+  if negb (issub sg x y) then None
+  else match find_common sg x y with Some c => Some (TMRng c) | None => None end.
+Proof. reflexivity. Qed.
+Lemma fc_mrng_mrng : forall x y, find_common sg (TMRng x) (TMRng y) =
+  if ty_eqb (TMRng x) (TMRng y) then Some (TMRng x)
+  else match find_common sg x y with Some c => Some (TMRng c) | None => None end.
+Proof. reflexivity. Qed.
+
+Theorem find_common_upper_bound :
+  forall a b c, ty_over a -> ty_over b -> find_common sg a b = Some c ->
+  impl_castable sg a c = true /\ impl_castable sg b c = true.
+Proof.
+  induction a using ty_ind'; intros b c Ha Hb Hfc.
+  - (* TS *)
+    destruct b; simpl in Hfc; try discriminate.
+    apply Hsc; auto.
+  - destruct b; simpl in Hfc; try discriminate. inversion Hfc; subst. simpl. auto.
+  - destruct b; simpl in Hfc; try discriminate. inversion Hfc; subst. simpl. auto.
+  - destruct b; simpl in Hfc; try discriminate. inversion Hfc; subst. simpl. auto.
+  - (* TArr *)
+    destruct b; simpl in Hfc; try discriminate.
+    destruct (ty_eqb a b) eqn:E.
+    + apply ty_eqb_eq in E. subst. inversion Hfc; subst.
+      split; apply (impl_refl (TArr b)); auto.
+    + destruct (find_common sg a b) as [c'|] eqn:Ec; [|discriminate]. inversion Hfc; subst.
+      simpl. apply IHa; auto.
+  - (* TTup *)
+    destruct b as [| | | | |m ys| | | |]; try (simpl in Hfc; discriminate).
+    rewrite find_common_tup_unfold in Hfc.
+    destruct (ty_eqb (TTup n els) (TTup m ys)) eqn:E.
+    + apply ty_eqb_eq in E. inversion Hfc; subst. rewrite <- E.
+      split; apply (impl_refl (TTup n els)); auto.
+    + destruct (Nat.eqb (length els) (length ys)) eqn:El; [|discriminate]. simpl in Hfc.
+      apply Nat.eqb_eq in El.
+      destruct (fc_zip els ys) as [cs|] eqn:Ez; [|discriminate].
+      destruct (fc_zip_spec els H Ha ys cs Hb El Ez) as [L I].
+      destruct (n && m && list_eqb N.eqb (map fst els) (map fst ys)) eqn:En; inversion Hfc; subst; clear Hfc.
+      * apply andb_true_iff in En as [En Enames]. apply list_eqb_N_eq in Enames.
+        assert (Hl : length (map fst els) = length cs) by (rewrite map_length; congruence).
+        destruct (I (map fst els) Hl) as [A B].
+        assert (Hlz : length (combine (map fst els) cs) = length els)
+          by (rewrite combine_length, map_length, L, Nat.min_id; reflexivity).
+        split; apply impl_tup_intro; auto; try congruence.
+        -- rewrite (map_fst_combine _ _ Hl). rewrite list_eqb_refl. simpl. apply andb_false_r.
+        -- rewrite (map_fst_combine _ _ Hl). rewrite <- Enames. rewrite list_eqb_refl. simpl. apply andb_false_r.
+      * assert (Hl : length (map N.of_nat (seq 0 (length cs))) = length cs)
+          by (rewrite map_length, seq_length; reflexivity).
+        destruct (I _ Hl) as [A B].
+        assert (Hlz : length (combine (map N.of_nat (seq 0 (length cs))) cs) = length els)
+          by (rewrite combine_length, Hl, Nat.min_id; exact L).
+        split; apply impl_tup_intro; auto; try congruence; rewrite andb_false_r; reflexivity.
+  - (* TRng *)
+    destruct a; try contradiction. simpl in Ha.
+    destruct b; try (simpl in Hfc; discriminate).
+    + destruct b; try contradiction. simpl in Hb. rewrite fc_rng_rng in Hfc.
+      destruct (ty_eqb (TRng (TS s)) (TRng (TS s0))) eqn:E.
+      * apply ty_eqb_eq in E. inversion E; subst. inversion Hfc; subst.
+        split; apply (impl_refl_scalar s0 Ha).
+      * destruct (find_common sg (TS s) (TS s0)) as [c'|] eqn:Ec; [|discriminate]. inversion Hfc; subst.
+        change (impl_castable sg (TS s) c' = true /\ impl_castable sg (TS s0) c' = true).
+        apply Hsc; auto.
+    + (* range vs multirange: the range's element type must be a subclass of the multirange's *)
+      destruct b; try contradiction. simpl in Hb. rewrite fc_rng_mrng in Hfc.
+      destruct (issub sg (TS s) (TS s0)) eqn:Es; [|discriminate]. simpl negb in Hfc. cbv iota in Hfc.
+      destruct (find_common sg (TS s) (TS s0)) as [c'|] eqn:Ec; [|discriminate]. inversion Hfc; subst.
+      change (issub sg (TS s) c' = true /\ impl_castable sg (TS s0) c' = true).
+      split; [eapply Hsc_sub; eauto|apply (Hsc s s0 c' Ha Hb Ec)].
+  - (* TMRng *)
+    destruct a; try contradiction. simpl in Ha.
+    destruct b; try (simpl in Hfc; discriminate).
+    destruct b; try contradiction. simpl in Hb. rewrite fc_mrng_mrng in Hfc.
+    destruct (ty_eqb (TMRng (TS s)) (TMRng (TS s0))) eqn:E.
+    + apply ty_eqb_eq in E. inversion E; subst. inversion Hfc; subst.
+      split; apply (impl_refl_scalar s0 Ha).
+    + destruct (find_common sg (TS s) (TS s0)) as [c'|] eqn:Ec; [|discriminate]. inversion Hfc; subst.
+      change (impl_castable sg (TS s) c' = true /\ impl_castable sg (TS s0) c' = true).
+      apply Hsc; auto.
+  - (* TObj *)
+    destruct b; simpl in Hfc; try discriminate.
+    destruct (nearest_common (ob_ancestors sg) o o0) as [|x rest] eqn:En; [discriminate|].
+    inversion Hfc; subst. simpl.
+    destruct (nearest_common_sub (ob_ancestors sg) o o0 x) as [A B]; [rewrite En; simpl; auto|].
+    unfold ob_sub. split; apply orb_true_iff.
+    + destruct A as [->|A]; [left; apply N.eqb_refl|right; apply memN_In; auto].
+    + destruct B as [->|B]; [left; apply N.eqb_refl|right; apply memN_In; auto].
+  - contradiction.
+Qed.
+End CommonUB.
 
 (* ------------------------------------------------------------------ the generated table *)
 From Verif.C12 Require Import Gen_StdSig.
@@ -1090,6 +1943,33 @@ Proof.
   apply andb_true_iff in P as [P1 P2]. split; apply opt_ty_eqb_eq; assumption.
 Qed.
 
+Lemma std_concrete_b : forallb (fun s => negb (sc_is_abstract std_sig s)) std_scalar_ids = true.
+Proof. vm_compute. reflexivity. Qed.
+
+Lemma std_common_impl_b :
+  all_pairs (fun s q => match find_common std_sig (TS s) (TS q) with
+                        | Some c => impl_castable std_sig (TS s) c && impl_castable std_sig (TS q) c
+                                    && (negb (issub std_sig (TS s) (TS q)) || issub std_sig (TS s) c)
+                        | None => true end) = true.
+Proof. vm_compute. reflexivity. Qed.
+
+(* the common type of ANY two types built over the concrete std scalars (arrays, tuples, named
+   tuples, ranges, multiranges, object types, at any nesting depth) is an upper bound: each
+   operand is implicitly castable to it *)
+Lemma std_common_type_upper_bound :
+  forall a b c, ty_over std_scalar_ids a -> ty_over std_scalar_ids b ->
+  find_common std_sig a b = Some c ->
+  impl_castable std_sig a c = true /\ impl_castable std_sig b c = true.
+Proof.
+  apply find_common_upper_bound.
+  - intros s Hs. pose proof std_concrete_b as H. rewrite forallb_forall in H.
+    apply negb_true_iff. apply H. exact Hs.
+  - intros s q c Hs Hq Hc. pose proof (all_pairs_spec _ std_common_impl_b s q Hs Hq) as P. cbv beta in P.
+    rewrite Hc in P. apply andb_true_iff in P as [P _]. apply andb_true_iff in P. exact P.
+  - intros s q c Hs Hq Hc Hsub. pose proof (all_pairs_spec _ std_common_impl_b s q Hs Hq) as P. cbv beta in P.
+    rewrite Hc in P. apply andb_true_iff in P as [_ P]. rewrite Hsub in P. simpl in P. exact P.
+Qed.
+
 (* ------------------------------------------------------------------ an example semantics *)
 
 (* a primitive that returns its first argument set when the first parameter's (instantiated)
@@ -1104,6 +1984,7 @@ Definition castv_ex (a b : ty) (v : value) : list value :=
   match b, v with TS q, VS _ p => [VS q p] | _, _ => [] end.
 Definition idxp_ex (t : ty) (v i : value) : list value := [].
 Definition db_ex (o : N) : list value := [VObj o 1%N; VObj o 2%N].
+Definition dbp_ex (id p : N) : list value := [].
 
 Lemma example_semantics_ok_gen : forall sg,
   (forall bc vals,
